@@ -13,3 +13,10 @@ from sa import inline
 with open(inline.PINNED, "w") as fh:
     json.dump(sorted(fx["fns"]), fh, indent=0)
 print("pinned fns:", len(fx["fns"]))
+
+# signatures of the non-public functions: a function that was merely renamed is recognised by them (sa/inline.py rename_private)
+sig = {p: dict(inputs=f.get("inputs"), output=f.get("output"), kind=f.get("kind")) for p, f in fx["fns"].items()
+       if f.get("vis") != "Public" and not p.startswith("<") and "tests::" not in p and f.get("body") is not None}
+with open(inline.PINNED_PRIVATE, "w") as fh:
+    json.dump(sig, fh, indent=0, sort_keys=True)
+print("pinned private fns:", len(sig))
